@@ -109,6 +109,8 @@ structure Inv (v : Variant) (s : St) : Prop where
   acons : v.countFetching = true → ∀ p, s.announces p = ((cntA s.announced p + cntA s.fetching p : Nat) : Int)
   ale : ∀ p, s.announces p ≤ (FeHashLimit : Int)
   dist : v.distTest = true → ∀ i ∈ s.queued, i.hAt ≤ i.blk.height + FeMaxUncleDist ∧ i.blk.height ≤ i.hAt + FeMaxQueueDist
+  pop : ∀ i ∈ s.queued, ∀ ph, i.st = some ph → i.blk.height ≤ ph + 1 ∧ ph ≤ i.blk.height + FeMaxUncleDist
+  nodup : (s.queued.map (fun i => i.blk.hash)).Nodup
 
 /-- `Inv` reads five fields only -/
 theorem Inv.congr {v : Variant} {s t : St} (h : Inv v s) (h1 : t.announces = s.announces) (h2 : t.announced = s.announced)
@@ -119,6 +121,8 @@ theorem Inv.congr {v : Variant} {s t : St} (h : Inv v s) (h1 : t.announces = s.a
   · rw [h1, h2, h3]; exact h.acons
   · rw [h1]; exact h.ale
   · rw [h5]; exact h.dist
+  · rw [h5]; exact h.pop
+  · rw [h5]; exact h.nodup
 
 theorem inv_init (v : Variant) (k : List Nat) (h : Nat) : Inv v { known := k, height := h } := by
   constructor <;> simp [cntQ, cntA] <;> omega
@@ -145,6 +149,8 @@ theorem forgetHash_inv {v : Variant} {s : St} (h : Nat) (hi : Inv v s) : Inv v (
       simp only [dec]
       split <;> omega
     · exact hi.dist
+    · exact hi.pop
+    · exact hi.nodup
   · constructor
     · exact hi.qcons
     · exact hi.qle
@@ -158,6 +164,8 @@ theorem forgetHash_inv {v : Variant} {s : St} (h : Nat) (hi : Inv v s) : Inv v (
       simp only []
       omega
     · exact hi.dist
+    · exact hi.pop
+    · exact hi.nodup
 
 theorem forgetBlock_inv {v : Variant} {s : St} (h : Nat) (hi : Inv v s) : Inv v (forgetBlock v s h) := by
   unfold forgetBlock
@@ -182,6 +190,9 @@ theorem forgetBlock_inv {v : Variant} {s : St} (h : Nat) (hi : Inv v s) : Inv v 
     · exact hi.ale
     · intro hv j hj
       exact hi.dist hv j (List.mem_of_mem_eraseP hj)
+    · intro j hj
+      exact hi.pop j (List.mem_of_mem_eraseP hj)
+    · exact List.Nodup.sublist (List.Sublist.map _ (List.eraseP_sublist)) hi.nodup
   · exact hi
 
 theorem onNotify_inv {v : Variant} {s : St} (p h : Nat) (t : Int) (hi : Inv v s) : Inv v (onNotify s p h t) := by
@@ -208,6 +219,8 @@ theorem onNotify_inv {v : Variant} {s : St} (p h : Nat) (t : Int) (hi : Inv v s)
         simp only [setc]
         split <;> omega
       · exact hi.dist
+      · exact hi.pop
+      · exact hi.nodup
 
 theorem enqueue_inv {v : Variant} {s : St} (p : Nat) (b : Blk) (hi : Inv v s) : Inv v (enqueue v s p b) := by
   unfold enqueue
@@ -220,7 +233,8 @@ theorem enqueue_inv {v : Variant} {s : St} (p : Nat) (b : Blk) (hi : Inv v s) : 
     · rename_i hd
       split
       · exact hi
-      · constructor
+      · rename_i hdup
+        constructor
         · intro hv q
           have h1 := hi.qcons hv q
           have h2 := cntQ_append_one s.queued ⟨p, b, s.height, none⟩ q
@@ -243,6 +257,22 @@ theorem enqueue_inv {v : Variant} {s : St} (p : Nat) (b : Blk) (hi : Inv v s) : 
             simp only [hv, Bool.true_and, Bool.or_eq_true, decide_eq_true_eq, not_or] at hd
             simp only []
             omega
+        · intro j hj ph hst
+          simp only [List.mem_append, List.mem_singleton] at hj
+          rcases hj with hj | hj
+          · exact hi.pop j hj ph hst
+          · subst hj; simp at hst
+        · simp only [List.map_append, List.map_cons, List.map_nil]
+          refine List.nodup_append.mpr ⟨hi.nodup, by simp, ?_⟩
+          intro a ha b' hb'
+          simp only [List.mem_singleton] at hb'
+          subst hb'
+          simp only [List.mem_map] at ha
+          obtain ⟨j, hj, rfl⟩ := ha
+          intro heq
+          apply hdup
+          simp only [List.any_eq_true, beq_iff_eq]
+          exact ⟨j, hj, heq⟩
 
 theorem timerOne_inv {v : Variant} (pick : Nat) {s : St} (h : Nat) (hi : Inv v s) : Inv v (timerOne v pick s h) := by
   unfold timerOne
@@ -292,6 +322,8 @@ theorem timerOne_inv {v : Variant} (pick : Nat) {s : St} (h : Nat) (hi : Inv v s
             · exact this
           · exact this
         · exact hf.dist
+        · exact hf.pop
+        · exact hf.nodup
     · exact hi
 
 theorem onTimer_inv {v : Variant} {s : St} (pick : Nat) (hi : Inv v s) : Inv v (onTimer v s pick) :=
@@ -308,20 +340,31 @@ theorem onDeliver_inv {v : Variant} {s : St} (bs : List Blk) (hi : Inv v s) : In
   exact foldl_inv (Inv v) (deliverTwo v) (fun _ b => deliverTwo_inv b) _ _
     (foldl_inv (Inv v) forgetHash (fun _ h => forgetHash_inv h) _ _ hi)
 
+theorem goroutine_fields (s : St) (i : Inj) (nh : Nat) :
+    (goroutine s i nh).announces = s.announces ∧ (goroutine s i nh).announced = s.announced ∧
+    (goroutine s i nh).fetching = s.fetching ∧ (goroutine s i nh).queues = s.queues ∧ (goroutine s i nh).queued = s.queued := by
+  unfold goroutine
+  cases s.known.contains i.blk.parent <;> cases i.blk.vOk <;> cases i.blk.iOk <;> simp
+
+theorem goroutine_dropped (s : St) (i : Inj) (nh : Nat) :
+    (goroutine s i nh).dropped = if s.known.contains i.blk.parent && !i.blk.vOk then i.origin :: s.dropped else s.dropped := by
+  unfold goroutine
+  cases s.known.contains i.blk.parent <;> cases i.blk.vOk <;> cases i.blk.iOk <;> simp
+
+theorem goroutine_handed (s : St) (i : Inj) (nh : Nat) :
+    (goroutine s i nh).handed = if s.known.contains i.blk.parent && i.blk.vOk then i :: s.handed else s.handed := by
+  unfold goroutine
+  cases s.known.contains i.blk.parent <;> cases i.blk.vOk <;> cases i.blk.iOk <;> simp
+
 theorem onFinish_inv {v : Variant} {s : St} (h nh : Nat) (hi : Inv v s) : Inv v (onFinish v s h nh) := by
   unfold onFinish
   split
   · exact hi
-  · apply forgetBlock_inv
+  · rename_i i _
+    apply forgetBlock_inv
     apply forgetHash_inv
-    simp only []
-    split
-    · exact hi
-    · split
-      · exact hi.congr rfl rfl rfl rfl rfl
-      · split
-        · exact hi.congr rfl rfl rfl rfl rfl
-        · exact hi.congr rfl rfl rfl rfl rfl
+    obtain ⟨h1, h2, h3, h4, h5⟩ := goroutine_fields s i nh
+    exact hi.congr h1 h2 h3 h4 h5
 
 theorem handle_inv {v : Variant} {s : St} (e : Ev) (hi : Inv v s) : Inv v (handle v s e) := by
   cases e with
@@ -337,7 +380,15 @@ theorem handle_inv {v : Variant} {s : St} (e : Ev) (hi : Inv v s) : Inv v (handl
 theorem expire_inv {v : Variant} {s : St} (hi : Inv v s) : Inv v (expire s) :=
   foldl_inv (Inv v) forgetHash (fun _ h => forgetHash_inv h) _ _ hi
 
-theorem markPopped_inv {v : Variant} {s : St} (h height : Nat) (hi : Inv v s) : Inv v (markPopped s h height) := by
+theorem foldl_inv_mem {α : Type} (P : St → Prop) (f : St → α → St) :
+    ∀ (l : List α) (s : St), (∀ s a, a ∈ l → P s → P (f s a)) → P s → P (l.foldl f s)
+  | [], _, _, h => h
+  | a :: l, s, hf, h =>
+    foldl_inv_mem P f l (f s a) (fun s b hb => hf s b (List.mem_cons_of_mem _ hb)) (hf s a (List.mem_cons_self) h)
+
+theorem markPopped_inv {v : Variant} {s : St} (i : Inj) (height : Nat)
+    (h1 : i.blk.height ≤ height + 1) (h2 : height ≤ i.blk.height + FeMaxUncleDist) (hi : Inv v s) :
+    Inv v (markPopped s i height) := by
   unfold markPopped
   constructor
   · intro hv p
@@ -354,15 +405,41 @@ theorem markPopped_inv {v : Variant} {s : St} (h height : Nat) (hi : Inv v s) : 
     obtain ⟨j0, hj0, rfl⟩ := hj
     have := hi.dist hv j0 hj0
     split <;> exact this
+  · intro j hj ph hst
+    simp only [List.mem_map] at hj
+    obtain ⟨j0, hj0, rfl⟩ := hj
+    by_cases heq : (j0 == i) = true
+    · have : j0 = i := by simpa using heq
+      subst this
+      simp only [heq, if_true, Option.some.injEq] at hst ⊢
+      subst hst
+      exact ⟨h1, h2⟩
+    · simp only [heq, if_false] at hst ⊢
+      exact hi.pop j0 hj0 ph hst
+  · simp only [List.map_map]
+    have : ((fun i : Inj => i.blk.hash) ∘ fun j => if (j == i) = true then { j with st := some height } else j)
+        = fun i : Inj => i.blk.hash := by
+      funext j
+      simp only [Function.comp]
+      split <;> rfl
+    rw [this]
+    exact hi.nodup
 
-theorem importOne_inv {v : Variant} (height : Nat) {s : St} (i : Inj) (hi : Inv v s) : Inv v (importOne v height s i) := by
+theorem importOne_inv {v : Variant} (height : Nat) {s : St} (i : Inj) (h1 : i.blk.height ≤ height + 1) (hi : Inv v s) :
+    Inv v (importOne v height s i) := by
   unfold importOne
   split
   · exact forgetBlock_inv _ hi
-  · exact markPopped_inv _ _ hi
+  · rename_i hc
+    simp only [Bool.or_eq_true, decide_eq_true_eq, not_or, Nat.not_lt] at hc
+    exact markPopped_inv _ _ h1 hc.1 hi
 
-theorem importPass_inv {v : Variant} {s : St} (hi : Inv v s) : Inv v (importPass v s) :=
-  foldl_inv (Inv v) (importOne v s.height) (fun _ i => importOne_inv _ i) _ _ hi
+theorem importPass_inv {v : Variant} {s : St} (hi : Inv v s) : Inv v (importPass v s) := by
+  unfold importPass
+  apply foldl_inv_mem (Inv v) (importOne v s.height) _ _ _ hi
+  intro t i him ht
+  simp only [List.mem_filter, Bool.and_eq_true, decide_eq_true_eq] at him
+  exact importOne_inv _ i him.2.2 ht
 
 theorem step_inv {v : Variant} {s : St} (e : Ev) (hi : Inv v s) : Inv v (step v s e) :=
   importPass_inv (expire_inv (handle_inv e hi))
@@ -371,5 +448,89 @@ theorem reach_inv {v : Variant} {s : St} (hr : Reach v s) : Inv v s := by
   induction hr with
   | init k h => exact inv_init v k h
   | step e _ ih => exact step_inv e ih
+
+/-! ### what only `finish` writes: the logs (dropPeer, insertChain, broadcastBlock) and the chain -/
+
+/-- the part of the state only the goroutine of `insert` (event `finish`) and `chain` write -/
+def Env (s : St) : List Nat × List Inj × List (Nat × Bool) × List Nat × Nat := (s.dropped, s.handed, s.bcast, s.known, s.height)
+
+theorem foldl_pres {α β : Type} (g : St → β) (f : St → α → St) (hf : ∀ s a, g (f s a) = g s) :
+    ∀ (l : List α) (s : St), g (l.foldl f s) = g s
+  | [], _ => rfl
+  | a :: l, s => by rw [List.foldl_cons, foldl_pres g f hf l (f s a), hf]
+
+theorem forgetHash_env (s : St) (h : Nat) : Env (forgetHash s h) = Env s := by
+  unfold forgetHash; simp only []; split <;> rfl
+theorem forgetBlock_env (v : Variant) (s : St) (h : Nat) : Env (forgetBlock v s h) = Env s := by
+  unfold forgetBlock; split <;> rfl
+theorem onNotify_env (s : St) (p h : Nat) (t : Int) : Env (onNotify s p h t) = Env s := by
+  unfold onNotify; simp only []; split
+  · rfl
+  · split <;> rfl
+theorem enqueue_env (v : Variant) (s : St) (p : Nat) (b : Blk) : Env (enqueue v s p b) = Env s := by
+  unfold enqueue; simp only []; split
+  · rfl
+  · split
+    · rfl
+    · split <;> rfl
+theorem timerOne_env (v : Variant) (pick : Nat) (s : St) (h : Nat) : Env (timerOne v pick s h) = Env s := by
+  unfold timerOne; split
+  · rfl
+  · split
+    · simp only []
+      split
+      · exact forgetHash_env s h
+      · exact forgetHash_env s h
+    · rfl
+theorem onTimer_env (v : Variant) (s : St) (pick : Nat) : Env (onTimer v s pick) = Env s :=
+  foldl_pres Env _ (timerOne_env v pick) _ _
+theorem deliverTwo_env (v : Variant) (s : St) (b : Blk) : Env (deliverTwo v s b) = Env s := by
+  unfold deliverTwo; split
+  · exact enqueue_env _ _ _ _
+  · rfl
+theorem onDeliver_env (v : Variant) (s : St) (bs : List Blk) : Env (onDeliver v s bs) = Env s := by
+  unfold onDeliver
+  simp only []
+  rw [foldl_pres Env _ (deliverTwo_env v), foldl_pres Env _ forgetHash_env]
+theorem expire_env (s : St) : Env (expire s) = Env s := foldl_pres Env _ forgetHash_env _ _
+theorem importOne_env (v : Variant) (height : Nat) (s : St) (i : Inj) : Env (importOne v height s i) = Env s := by
+  unfold importOne; split
+  · exact forgetBlock_env _ _ _
+  · rfl
+theorem importPass_env (v : Variant) (s : St) : Env (importPass v s) = Env s :=
+  foldl_pres Env _ (importOne_env v s.height) _ _
+theorem head_env (v : Variant) (s : St) : Env (head v s) = Env s := by
+  unfold head; rw [importPass_env, expire_env]
+
+/-- on a list with distinct keys, deleting the first entry of a key leaves no entry of that key -/
+theorem nodup_eraseP_no_key (h : Nat) : ∀ (l : List Inj), (l.map (fun i => i.blk.hash)).Nodup →
+    ∀ j ∈ l.eraseP (fun i => i.blk.hash == h), j.blk.hash ≠ h
+  | [], _, j, hj => by simp at hj
+  | x :: l, hn, j, hj => by
+    simp only [List.map_cons, List.nodup_cons] at hn
+    by_cases hx : x.blk.hash = h
+    · simp [List.eraseP_cons, hx] at hj
+      intro hjh
+      apply hn.1
+      simp only [List.mem_map]
+      exact ⟨j, hj, by rw [hjh, hx]⟩
+    · simp [List.eraseP_cons, hx] at hj
+      rcases hj with hj | hj
+      · subst hj; exact hx
+      · exact nodup_eraseP_no_key h l hn.2 j hj
+
+theorem nodup_eraseP_no_hash (h : Nat) : ∀ (l : List Ann), (l.map (fun a => a.hash)).Nodup →
+    ∀ a ∈ l.eraseP (fun a => a.hash == h), a.hash ≠ h
+  | [], _, a, ha => by simp at ha
+  | x :: l, hn, a, ha => by
+    simp only [List.map_cons, List.nodup_cons] at hn
+    by_cases hx : x.hash = h
+    · simp [List.eraseP_cons, hx] at ha
+      intro hah
+      exact hn.1 (List.mem_map.mpr ⟨a, ha, by rw [hah, hx]⟩)
+    · simp [List.eraseP_cons, hx] at ha
+      rcases ha with ha | ha
+      · subst ha; exact hx
+      · exact nodup_eraseP_no_hash h l hn.2 a ha
 
 end ZV.Fetcher
